@@ -534,7 +534,7 @@ class Explorer:
                             m = ctx.small_model(ctx.solver, ctx.solver.model())
                             res.witnesses.append({"model": ctx.extract_model(m), "guarded": bool(getattr(I, "guarded", False)),
                                                   "ensures": [o.name for o in ctx.obligations
-                                                              if not o.name.startswith(("inv-init:", "inv-step:", "pre@", "side:", "no-exception"))]})
+                                                              if not o.name.startswith(("inv-init:", "inv-step:", "pre@", "side:")) and o.name != "no-exception"]})
                     except Exception:
                         pass
                 # implicit obligation on every completed path: nothing escaped
